@@ -40,6 +40,22 @@ def run_scenario(sess, sc, first=False):
         xtmp = tempfile.mkdtemp(prefix="verif-xtmp-", dir=sc["xdev_tmp"])
         shutil.rmtree(os.path.join(sess.root, "tmp"), ignore_errors=True)
         os.symlink(xtmp, os.path.join(sess.root, "tmp"))
+    if sc.get("hostile"):
+        # a directory state outside the abstract model, made before the traced phase: <cache>/tmp
+        # is a regular file / a dangling symbolic link / <cache>/content-v2 is a regular file.
+        # Whatever the call does then (an error is expected), it does it inside the cache.
+        os.makedirs(sess.root, exist_ok=True)
+        name = {"tmp_file": "tmp", "tmp_dangling": "tmp", "content_file": "content-v2"}[sc["hostile"]]
+        tp = os.path.join(sess.root, name)
+        if os.path.islink(tp) or os.path.isfile(tp):
+            os.unlink(tp)
+        else:
+            shutil.rmtree(tp, ignore_errors=True)
+        if sc["hostile"] == "tmp_dangling":
+            os.symlink(os.path.join(sess.root, "no-such-dir", "x"), tp)
+        else:
+            with open(tp, "wb") as f:
+                f.write(b"not a directory")
     fr = FsRun(sess.dir, sess)
     fr.emulate_clone = bool(sc.get("emulate_clone"))
     # every visible entry must have its content, unless this scenario itself removes content by
@@ -1006,10 +1022,16 @@ def confinement_scenarios(rng, tier, lanes=("S", "Aa", "Ta")):
                 ("hard_link_damaged", {"op": "extract", "kind": "hard_link", "checked": True, "sri": sri, "to": "hld%d" % ki}, "damaged"),
                 ("exists_damaged", {"op": "exists", "sri": sri}, "damaged"),
                 ("read_content_gone", {"op": "read", "key": key}, "gone")]
+        # writes into a cache whose temp area (or content area) cannot be used: the call fails, or
+        # succeeds, INSIDE the cache - no fallback to the system's temp directory
+        hops = [("write_" + h, {"op": "write", "key": key, "data": d, "algo": "sha256", "how": how}, h)
+                for h in ("tmp_file", "tmp_dangling", "content_file") for how in ("oneshot", "streamed")]
+        hops += [("write_hash_" + h, {"op": "write", "data": d, "algo": "sha256", "how": "oneshot"}, h)
+                 for h in ("tmp_file", "tmp_dangling")]
         if q:
-            ops = [ops[0]] + rng.sample(ops[1:-3], 4) + rng.sample(ops[-3:], 2) + rng.sample(dops, 3)
+            ops = [ops[0]] + rng.sample(ops[1:-3], 4) + rng.sample(ops[-3:], 2) + rng.sample(dops, 3) + rng.sample(hops, 2)
         else:
-            ops += dops
+            ops += dops + hops
         for name, st, needs in ops:
             lane = rng.choice(lanes)
             warm = [{"op": "write", "lane": "S", "key": key, "data": d, "algo": "sha256"}] if needs is True else \
@@ -1021,10 +1043,17 @@ def confinement_scenarios(rng, tier, lanes=("S", "Aa", "Ta")):
                     dm = {"mode": "remove"}
                 warm = [{"op": "write", "lane": "S", "key": key, "data": d, "algo": "sha256"},
                         dict({"op": "env_content", "algo": "sha256", "blob": d}, **dm)]
-            out.append({"universe": {"keys": prog["keys"], "blobs": prog["blobs"]}, "warm": warm,
-                        "procs": [dict(st, lane=lane)], "plan": {"kind": "free"}, "cont": [],
-                        "variant": {"key": ks[:40], "op": name, "lane": lane},
-                        "allowed": {"key": ks, "data_hex": d}})
+            sc_ = {"universe": {"keys": prog["keys"], "blobs": prog["blobs"]}, "warm": warm,
+                   "procs": [dict(st, lane=lane)], "plan": {"kind": "free"}, "cont": [],
+                   "variant": {"key": ks[:40], "op": name, "lane": lane},
+                   "allowed": {"key": ks, "data_hex": d}}
+            if needs in ("tmp_file", "tmp_dangling", "content_file"):
+                sc_["hostile"] = needs
+                sc_["warm"] = []
+                sc_["resolvable"] = False
+                if st.get("how") == "streamed":
+                    sc_["procs"][0]["chunks"] = [(0, 10), (10, 21)]
+            out.append(sc_)
     return out
 
 
